@@ -1,7 +1,7 @@
 (* C11 — deciding obligations of the codec core (proof part of the property; the per-class part is explored
    by vf/checks/c11.py).  Statements only, closed by the lemmas proved in Codec/JsonMemoProofs.v. *)
 From Coq Require Import ZArith List Bool String.
-From VF Require Import Codec.JsonMemo Codec.JsonMemoProofs Codec.KeyPath Codec.KeyPathProofs.
+From VF Require Import Codec.JsonMemo Codec.JsonMemoProofs Codec.KeyPath Codec.KeyPathProofs Codec.MemoHash Codec.MemoHashProofs.
 Import ListNotations.
 
 (* reading back what the encoder wrote gives the value, for every finite value and every choice of by-key classes;
@@ -112,6 +112,53 @@ Theorem C11_key_roundtrip_refuted : exists k, key_roundtrip k <> k /\ key_eq_imp
 Proof. exact key_roundtrip_refuted. Qed.
 Print Assumptions C11_key_roundtrip_refuted.
 
+(* ---------- the memo as a Python dict (Codec/MemoHash.v): entries are found by hash, then == ---------- *)
+
+(* whatever the hash function is and however many distinct by-key objects share one hash, a memo keyed by the objects
+   writes each of them as itself: the document is the one of the reference encoder and reads back to the value *)
+Theorem C11_dict_memo_is_reference : forall (bk : string -> bool) (h : value -> Z) v, encode_dict bk h v = encode bk v.
+Proof. exact encode_dict_is_encode. Qed.
+Print Assumptions C11_dict_memo_is_reference.
+
+Theorem C11_dict_memo_roundtrip : forall (bk : string -> bool) (h : value -> Z) v,
+  wf v = true -> decode (encode_dict bk h v) = Some v.
+Proof. exact dict_memo_roundtrip. Qed.
+Print Assumptions C11_dict_memo_roundtrip.
+
+(* kept at full strength: a memo keyed by hash(o) alone does not — two circuits on the qubits -1 and -2 of a line
+   (CPython: hash(-1) = hash(-2)) in one document read back as two copies of the first; documents of this shape are
+   replayed on the implementation by the check (collision grid) *)
+Theorem C11_memo_by_hash_refuted : exists (bk : string -> bool) (h : value -> Z) v,
+  wf v = true /\ decode (encode_by_hash bk h v) <> Some v /\ decode (encode_dict bk h v) = Some v.
+Proof. exact memo_by_hash_refuted. Qed.
+Print Assumptions C11_memo_by_hash_refuted.
+
+(* ---------- equal mappings have equal hashes (ParamResolver, ProductState: == is dict equality) ---------- *)
+Theorem C11_dict_eq_hash : forall (hi : item -> Z) a b, keys_distinct a = true -> keys_distinct b = true ->
+  dict_eqb a b = true -> items_hash hi a = items_hash hi b.
+Proof. exact dict_eq_hash. Qed.
+Print Assumptions C11_dict_eq_hash.
+
+Theorem C11_name_eq_name_hash : forall (hi : item -> Z) a b,
+  keys_distinct (map by_name a) = true -> keys_distinct (map by_name b) = true ->
+  name_eqb a b = true -> items_hash hi (map by_name a) = items_hash hi (map by_name b).
+Proof. exact name_eq_name_hash. Qed.
+Print Assumptions C11_name_eq_name_hash.
+
+(* kept at full strength: an equality that identifies a key written as a name with the key written as a symbol, next to
+   a hash of the items as written, breaks the contract; so does a hash that reads the items in insertion order *)
+Theorem C11_name_eq_raw_hash_refuted :
+  name_eqb res_sym res_name = true /\ dict_eqb res_sym res_name = false /\
+  keys_distinct res_sym = true /\ keys_distinct res_name = true /\
+  forall hi : item -> Z, hi (KSym "a", 0%Z) <> hi (KName "a", 0%Z) -> items_hash hi res_sym <> items_hash hi res_name.
+Proof. exact name_eq_raw_hash_refuted. Qed.
+Print Assumptions C11_name_eq_raw_hash_refuted.
+
+Theorem C11_dict_eq_sequence_hash_refuted :
+  dict_eqb st_ab st_ba = true /\ keys_distinct st_ab = true /\ keys_distinct st_ba = true /\ st_ab <> st_ba.
+Proof. exact dict_eq_sequence_hash_refuted. Qed.
+Print Assumptions C11_dict_eq_sequence_hash_refuted.
+
 (* ---------- non-vacuity ---------- *)
 Open Scope string_scope.
 Definition ex_bk (t : string) : bool := String.eqb t "FrozenCircuit".
@@ -161,3 +208,14 @@ Proof. split; reflexivity. Qed.
 Example C11_example_key : key_wf (MKey ["a"; "b"] "m") = true /\ key_str (MKey ["a"; "b"] "m") = "a:b:m" /\
   key_parse "a:b:m" = MKey ["a"; "b"] "m" /\ key_parse "m" = MKey [] "m" /\ key_parse ":" = MKey [""] "".
 Proof. repeat split; reflexivity. Qed.
+
+(* distinct by-key objects with one hash exist, and the hypotheses of the mapping theorems are satisfiable *)
+Example C11_example_collision :
+  value_eqb (circuit_on (-1)) (circuit_on (-2)) = false /\
+  py_value_hash (circuit_on (-1)) = py_value_hash (circuit_on (-2)) /\ wf two_circuits = true.
+Proof. exact two_circuits_collide. Qed.
+
+Example C11_example_mappings :
+  keys_distinct st_ab = true /\ keys_distinct st_ba = true /\ dict_eqb st_ab st_ba = true /\
+  keys_distinct (map by_name res_sym) = true /\ keys_distinct (map by_name res_name) = true.
+Proof. exact dict_eq_hash_example. Qed.
